@@ -251,11 +251,22 @@ def _run_case(case):
         try:
             with contextlib.redirect_stdout(io.StringIO()):
                 opt.run()
-        except ValueError as ex:
-            if "within the support" not in str(ex):
-                raise
-            # the unconstrained optimiser left the support in the middle of the run and torch.distributions says so: not an update with
-            # valid values; the parameters are given new values
+        except (ValueError, RuntimeError) as ex:
+            if "within the support" not in str(ex) and "to satisfy the constraint" not in str(ex):
+                # any other failure inside the run is the optimiser's business only if a freshly built copy holding the values it had
+                # reached rejects them as well (an unconstrained optimiser can reach values no model accepts: a parent below its child,
+                # a negative scale); a fresh copy that evaluates where the live model raised is a stale or corrupted state
+                try:
+                    _, fresh_ = tt.load(spec_with_values(g["spec"], leaf_values()))
+                    with torch.no_grad():
+                        fresh_[e]()
+                    fresh_ok = True
+                except Exception:
+                    fresh_ok = False
+                if fresh_ok:
+                    raise
+            # the unconstrained optimiser left the support in the middle of the run and the model (or torch.distributions) says so: not an
+            # update with valid values; the parameters are given new values
             for pid in chosen:
                 dic[pid].tensor = new_value(pid)
             C["optimizer_left_support"] = C.get("optimizer_left_support", 0) + 1
